@@ -169,7 +169,10 @@ func c15Run(c *Ctx) {
 		"\u09dc", "\u09dd", "\u09df", "\u09a1\u09bc", "\u09a2\u09bc", "\u09af\u09bc",
 		"\u09cb", "\u09c7\u09be", "\u09cc", "\u09c7\u09d7", "\u0995\u09cb", "\u0995\u09c7\u09be", "x\u09df" + "y", K["else"], K["continue"],
 		"\u212b", "\u1e9b\u0323", "1e+06", "0", "nil", "true", "[1 2]", "\u0958",
-		"%", "100%", "%d %s %v", "%!(NOVERB)", "50% off", "%%", "a%20b", "\u09ac\u09df\u09b8"}
+		"%", "100%", "%d %s %v", "%!(NOVERB)", "50% off", "%%", "a%20b", "\u09ac\u09df\u09b8",
+		// characters that are invisible or only shape their neighbours are characters of the string all the same
+		"\u09b0\u200d\u09cd\u09af", "\u0995\u09cd\u200c\u0995", "shelf\u200cful", "\u200d", "\u200c\u200c", "a\u200bb", "\ufeffx", "x\ufeff", "x\u00ady", "a\u00a0b", "a\u2060b", "tab\there",
+		"a\u200e\u200fb", "x\ufe0f", "\u2764\ufe0e", "a\u034fb", "\u061c", "\u180e", "a\u2028b", "a\u0085b", "a\x7fb", "a\x01b", "a\rb", " lead", "trail ", "  ", "\u3000", "a\u2009b", "\U000e0001", "\U0001f468\u200d\U0001f469"}
 	for _, s := range strs {
 		if strings.ContainsAny(s, "\"") {
 			continue
